@@ -138,13 +138,16 @@ SPEC = dict(
     nontrivial=nontrivial,
     histogram=histogram,
     translate=translate,
-    rule="Proof: 36 theorems of coq/score/C01.v (+ 2 of C01History.v, + 7 of C01Scores.v), for all inputs (no size bound): generic pipeline cell = defined "
+    rule="Proof: 58 theorems of coq/score/C01.v (+ 9 of C01History.v, + 11 of C01Scores.v), for all inputs (no size bound): generic pipeline cell = defined "
          "left-to-right sum for any carrier/addition (score_generic_cell, score_unstripe: exactly L-M+1 values, none "
          "when L<M; score_rows_sub; score_position); AVX2 permute and gather kernels, the AVX2 wrapper, the SSE2 "
          "kernel (any multiple of 16 columns; abstract addition with x+0=x off -0, instantiated for binary32 from "
          "Flocq) and every arm of the dispatcher equal the generic pipeline for every row range, every previous "
          "buffer content and every padding content (lane tables regenerated from avx2.rs/dispatch.rs by the "
-         "translators and re-checked by reflection: avx2_layout_ok, lane4_layout_ok); the NEON kernel and wrapper "
+         "translators and re-checked by reflection: avx2_layout_ok, lane4_layout_ok); each kernel / wrapper / dispatcher "
+         "equality is stated twice: `*_eq_wf` under mat_wf C K (sq_mat q) alone (every row of the sequence matrix has C symbols: ANY "
+         "StripedSequence the API can build, incl. StripedSequence::new on an arbitrary matrix and ::sample) and, as a corollary under "
+         "its round-2 name, under Striped; the NEON kernel and wrapper "
          "(translator + proof only, not compiled on x86) equal generic for every row range as well, after the "
          "repair of /repo commit 9cd9b52 (C01_neon_range_unguarded_old_refuted keeps the witness against the "
          "wrapper as it was: no row-range assertion); sub-range, L<M and "
@@ -158,7 +161,7 @@ SPEC = dict(
          "Round 3, C01.v: C01_score_dispatch_arm_eq(_f32) (any dispatcher arm table, incl. the Arm one with the NEON arm at 16 columns), "
          "C01_wrapper_guards_as_modelled (presence, order and nesting depth of the guards / resize / kernel call of the AVX2, SSE2 and "
          "NEON safe wrappers as regenerated from the source), C01_scores_iter_double_ended, C01_scores_offset. "
-         "C01Scores.v (7 theorems): the statement skeleton of scores.rs (resize, empty/Default, is_empty, offset, Index, "
+         "C01Scores.v (7 theorems in round 3, 11 since wave 3): the statement skeleton of scores.rs (resize, empty/Default, is_empty, offset, Index, "
          "Iter::new/get, unstripe; regenerated into GenScores.v by translate/score_scores.py on every run) is the model's "
          "(C01_scores_skeleton_as_modelled); the default score_rows_into never reads the buffer (C01_score_rows_into_ignores_buffer); after ANY "
          "history of score_into / score_rows_into (any pipeline, motif, sequence, alphabet, row range) / resize / clone / Default calls on one "
@@ -190,21 +193,40 @@ SPEC = dict(
          "the generic pipeline on a fresh buffer); 8 % cases with a FINITE wildcard column, 15-60 % wildcard symbols and 20-100 % +-0.0 cells "
          "at 16/32 columns; corpus/C01/history.txt (22 histories). Non-trivial: distinct (alphabet, "
          "C, L mod C, size class, M, has -inf, sub-ranges, wrap kind) with L >= M and >= 2 distinct symbols; a non-trivial history has "
-         ">= 2 scoring calls and >= 3 steps, distinct by (C, op kinds, pipelines).",
+         ">= 2 scoring calls and >= 3 steps, distinct by (C, op kinds, pipelines). "
+         "Round 3 wave 3: states with arbitrary padding (Padded C N s q: the matrix is the striped form of s ++ pad over R = rows - wrap "
+         "rows, len = |s|; = StripedPad of C04; R may exceed ceil(len/C)): C01_score_unstripe_padded (exactly L-M+1 defined scores of s, none "
+         "when L<M: the padding is never seen), C01_score_cells_padded (as coded: cell (r,c) = defined score of position c*R+r of s ++ pad: the "
+         "cells past max_index score the padding symbols), C01_score_index_padded_refuted (witness that the padding-cell clause of "
+         "C01_score_index does not extend to padded states), C01_every_backend_padded, C01_backends_sub_range_padded, check_padded_sound "
+         "(padded_b), C01_padded_generalises_striped, C01_padded_sequence_unique; L<M without any layout hypothesis: "
+         "C01_scores_short_iter_index (iterator yields None, len 0, unstripe [], Index panics for every index), "
+         "C01_backends_short_sequence_wf; C01_score_rows_lookahead (sub-ranges reaching into look-ahead rows), C01_score_generic_shape (R rows "
+         "of exactly C cells). C01History.v (9): C01_history_striped, C01_history_striped_stale_start, C01_padded_bridge, C01_pad_history_scan, "
+         "C01_pad_history_backends (after any C04 history with sample-as-it-was-before-/repo-740d563 / new), C01_sample_striped, "
+         "C01_mode_history_scan (the repaired sample and any op3 history of C04 in wildcard mode; added by the stripe builder). C01Scores.v: "
+         "C01_scores_history_wf, C01_scores_history_last_call_only_wf (histories under mat_wf only), C01_scores_history_content_padded, "
+         "C01_hop_ok_implies_wf. Correspondence run, in addition: 12 % of the classic cases build the sequence with StripedSequence::new on a "
+         "hand-made matrix (0/1/2/5 rows more than ceil(L/C), padding letters mostly not the wildcard), 8 % with StripedSequence::sample "
+         "(StdRng seeded from the case; wildcard padding since /repo 740d563, both paddings accepted), 15 % of the sequences of a history case "
+         "are new-built; the logical sequence is read off the observed matrix by the extracted logical_seq and compared with the public Index "
+         "(lq=); the hypothesis is decided by the extracted padded_b instead of striped_b; corpus/C01/padded.txt (40 cases). The non-trivial "
+         "key includes the source kind (stripe / new / sample). Above a cost budget the extracted SIMD kernel models are replayed on sampled "
+         "rows only (verdict detail sampled-kernel-replays=n, histogram key kernel-replay=sampled-rows, about 20 % of the classic cases).",
     trusted_base=[
-        "Coq 8.16.1 kernel (coqc); vm_compute only in the lane-layout reflection (avx2_layout_ok) and the Example lemmas; no native_compute",
-        "Flocq 4.1 (BinarySingleNaN, Plus_error, Relative) as the definition of IEEE-754 binary32 addition, through LMBase.IEEE; the classical axioms of Coq's Reals that Flocq's B2R theorems use (sig_forall_dec, sig_not_dec, functional_extensionality_dep, classic) under the 13 theorems that mention reals or the -0 lemma",
-        "extraction: ExtrOcamlBasic only (nat, N, Z, positive, Flocq floats kept as extracted inductives); OCaml 4.13.1",
-        "hand-written OCaml driver ocaml/score/driver.ml (parsing, conversion to the extracted types, comparison of the model's cells with the observed ones, sampling of rows for the costly kernel models)",
-        "Rust harness harness/src/bin/score.rs (calls the public API, catch_unwind, prints bit patterns; `=` back-references for results identical to the generic pipeline's)",
+        "Coq 8.16.1 kernel (coqc); vm_compute only in the lane-layout reflection (avx2_layout_ok, lane4_layout_ok and the table side conditions of the `*_eq_wf` theorems), the closed witnesses (C01_score_index_padded_refuted, C01_neon_range_unguarded_old_refuted), two binary32 facts about adding zeros (ScoresProofs.v) and the Example lemmas; no native_compute",
+        "Flocq 4.1 (BinarySingleNaN, Plus_error, Relative) as the definition of IEEE-754 binary32 addition, through LMBase.IEEE (the theorems that mention reals or the -0 lemma rest on the axioms of Coq's Reals that Flocq's B2R theorems use; the runner appends the audited list)",
+        "extraction: ExtrOcamlBasic only (its Extract Inductive directives for bool, option, list, prod, unit, sumbool, sumor); no other Extract Inductive and no Extract Constant (nat, N, Z, positive, Flocq floats kept as extracted inductives); OCaml 4.13.1",
+        "hand-written OCaml driver ocaml/score/driver.ml (parsing, conversion to the extracted types, comparison of the model's cells with the observed ones). PROPFAIL decisions: the extracted check_C01 / check_same_results / check_subrange; hand-written PROPFAIL paths, all strictly additional (they can only add a PROPFAIL, never replace a checker's decision): a panic of a full scan / in-range sub-range / unstripe / score_position on a configured sequence, `count n expected L-M+1` (the same test is inside check_C01; kept for the message), unstripe order (value i = cell (i mod rows, i / rows) of the observed matrix), Index / score_position / ScoringMatrix::score that differ from unstripe at the same position, rev that is not the reverse of unstripe, in histories len <> L-M+1, is_empty <> (L<M), Vec::from / rev <> unstripe. No comparison is skipped silently and there is no fail-open path (every parse / evaluation failure is a DIFF): above a cost budget the extracted SIMD kernel models are replayed on sampled rows (the observed cells are still compared in full with the generic pipeline's, and those with the generic model); such cases are counted (verdict detail `sampled-kernel-replays=n`, histogram `kernel-replay=sampled-rows`). The hypothesis of the value theorems is decided on every matrix the library built by the extracted striped_b (striped_b_sound) or, for src=new / src=sample states, padded_b (check_padded_sound); the sequence of such a state is read off the observed matrix by the extracted logical_seq",
+        "Rust harness harness/src/bin/score.rs (calls the public API, catch_unwind, prints bit patterns; `=` back-references for results identical to the generic pipeline's; builds sequences by Stripe::stripe, StripedSequence::new or StripedSequence::sample (`src=`) and prints the public Index<usize> of the striped sequence (`lq=`))",
         "translators translate/score_avx2.py (regex extraction of the AVX2 shuffle masks and which accumulator each feeds, permute2f128 operands, store offsets, the dispatcher's match arms) and translate/score_lane4.py (SSE2 unpack / NEON zip network as paths of halves, accumulator pairing, store offsets, presence, order AND nesting depth of the guards of the AVX2, SSE2 and NEON safe wrappers; the dispatcher tables are read cfg-aware: x86 and Arm); both also require the loop and pointer-advance statements to have the modelled shape",
         "translator translate/score_scores.py (regex match of 17 statement lists of scores.rs, small expression parser for the index expressions; tolerates commuted +, *, ==, min and either order of independent statements; a parse failure is a broken obligation)",
         "lane-wise semantics given to the x86 intrinsics in coq/score/SimdModel.v (shuffle_epi8, unpack*_epi8, permutevar8x32, i32gather, permute2f128, cmpeq/and, add_ps, stream stores), exercised by the correspondence run",
         "modelled, not verified: the Rust code itself (pli/mod.rs, avx2.rs, sse2.rs, dispatch.rs, scores.rs, seq.rs, pwm/mod.rs as read); the NEON f32 kernel is modelled and tied by the translator and the proof only (not compiled on this host, never executed: its intrinsics semantics is untested)",
-        "for C01History.v: the striping model and theorems of property C04 (coq/stripe, another group)",
+        "for C01History.v (through StripeBridge.v / StripePadBridge.v): the striping model and theorems of property C04 (coq/stripe, another group: StripeAvx2.run, PadHistory.run2, C04_history_from_default, C04_history_stale_start, C04_pad_history, C04_sample_striped, C04_mode_history; if coq/stripe renames them C01History.v breaks)",
     ],
     assumptions=[
-        "the sequence matrix satisfies Striped C s m (proved for the library's striping under C04; checked by the driver on every matrix the library built, incl. after re-configuration)",
+        "the kernel equalities (`*_eq_wf`) assume of the sequence only mat_wf (every row of the matrix has C symbols < K: type invariant of DenseMatrix<A::Symbol, C>); the value theorems assume Striped (states built by Stripe::stripe / stripe_into: proved under C04, bridged by C01_history_striped) or Padded (states built by StripedSequence::new / ::sample: proved under C04, bridged by C01_pad_history_scan), both followed by any configure / configure_wrap; the driver decides the applicable predicate on every matrix the library built, incl. after re-configuration, with the extracted striped_b / padded_b (striped_b_sound, check_padded_sound)",
         "symbols are below K and scoring-matrix rows have K cells (type invariants of A::Symbol and DenseMatrix<f32, A::K>); every row of a score buffer has C cells (sc_wf: type invariant of StripedScores<f32, C>)",
         "NaN payloads are not distinguished (one NaN); the value statements (Holds_C01) claim nothing for matrices with a NaN or +inf cell or with sum|t_j| >= 2^126 (intermediate overflow possible) and for motifs wider than 2^23; the bit-for-bit backend equalities have no such restriction",
         "M = 0 is outside the property (M >= 1): the model still follows the code there (SIMD wrappers panic on `rows() - 1`)",
